@@ -38,6 +38,8 @@ type Field struct {
 	Private bool     // register as non-public symbol
 	OnChild bool     // field lives in the child-store bucket (for child stores)
 	Derived bool     // maintained by an index / link collection: has a symbol and is read, never persisted by the strategy
+	// NotNilMapped: the symbol is wrapped with Store.MapSymbol(name, NotNilStringMapper{}) (string fields)
+	NotNilMapped bool
 }
 
 type UniqueDef struct {
@@ -494,6 +496,9 @@ func Build(defs []*StoreDef) *Schema {
 					st.Sym[f.Name] = sym
 				} else {
 					st.Sym[f.Name] = st.Store.AddSymbolWithKey(f.Name, ast.NodeTypeString, f.StoreKey(), f.Prefix...)
+				}
+				if f.NotNilMapped {
+					st.Store.MapSymbol(f.Name, boltz.NotNilStringMapper{})
 				}
 			case KI32, KI64, KF64, KBool, KTime:
 				nt := map[Kind]ast.NodeType{KI32: ast.NodeTypeInt64, KI64: ast.NodeTypeInt64, KF64: ast.NodeTypeFloat64, KBool: ast.NodeTypeBool, KTime: ast.NodeTypeDatetime}[f.Kind]
